@@ -28,6 +28,10 @@ def run(chk, tier):
         F = load(chk, cfg)
         from props import builder as B
         B.conversion_table(chk, F, 'R12.7', cfg)
+        # R12.12 the quantifier of a single-use value advances the running response index by its count, so a response that follows with
+        # then() starts behind it and never shadows the value (every builder API function: push before quantify, documented count)
+        B.api_table(chk, F, 'R12.12', cfg)
+        B.quantify_arith(chk, F, 'R12.12.arith', cfg)
         # R12.11 'handed to exactly one caller, also when several threads race for it': which caller a single-use value goes to is decided by
         # its position - the result of one atomic RMW (shared with C10/C04), never a bump followed by a separate read
         from props.c10 import position_is_rmw
